@@ -19,6 +19,15 @@ type TPart struct {
 	Div     string // {{ div 7 (int .label) }}: fails (division by zero) when the label is missing, empty or 0
 	// Repl: {{ regexReplaceAll "re" .label "repl" }} (Literal: regexReplaceAllLiteral, the replacement taken as it is)
 	Repl *ReplPart
+	// Align: {{ alignLeft N .label }} / {{ alignRight N .label }}: the value cut or padded to N characters
+	Align *AlignPart
+}
+
+// AlignPart is a width adjustment of a label's value, counted in characters (runes).
+type AlignPart struct {
+	Right bool
+	N     int
+	Label string
 }
 
 // ReplPart is a regular-expression replacement over a label's value.
@@ -47,6 +56,12 @@ func (t Template) Source() string {
 			sb.WriteString(`{{ regexReplaceAll "(" "x" "y" }}`)
 		case p.Div != "":
 			sb.WriteString("{{ div 7 (int ." + p.Div + ") }}")
+		case p.Align != nil:
+			fn := "alignLeft"
+			if p.Align.Right {
+				fn = "alignRight"
+			}
+			sb.WriteString("{{ " + fn + " " + strconv.Itoa(p.Align.N) + " ." + p.Align.Label + " }}")
 		case p.Repl != nil:
 			fn := "regexReplaceAll"
 			if p.Repl.Literal {
@@ -81,6 +96,25 @@ func (t Template) Expand(e *Entry) (string, bool) {
 				return "", false
 			}
 			sb.WriteString(strconv.Itoa(7 / n))
+		case p.Align != nil:
+			rs := []rune(e.Labels[p.Align.Label])
+			n := p.Align.N
+			switch {
+			case n < 0:
+			case len(rs) > n && p.Align.Right:
+				rs = rs[len(rs)-n:]
+			case len(rs) > n:
+				rs = rs[:n]
+			}
+			pad := ""
+			if n > len(rs) {
+				pad = strings.Repeat(" ", n-len(rs))
+			}
+			if p.Align.Right {
+				sb.WriteString(pad + string(rs))
+			} else {
+				sb.WriteString(string(rs) + pad)
+			}
 		case p.Repl != nil:
 			r := re(p.Repl.Re)
 			if p.Repl.Literal {
